@@ -9,6 +9,18 @@ A4 == {32, Ord["h"], Ord["i"], Ord["+"], Ord["-"], Ord["1"], Ord["("], Ord["x"],
 \* operator sets
 OpsBuiltin == BuiltinOps
 OpsExtended == ExtendedOps
+\* the eight subsets of the three user operators (bit 1: prefix +++, bit 2: postfix ---, bit 4: infix hi) for registration histories
+UPre == {W(<<"+","+","+">>)}
+UPost == {W(<<"-","-","-">>)}
+UIn == {W(<<"h","i">>)}
+OpsS0 == BuiltinOps
+OpsS1 == BuiltinOps \cup UPre
+OpsS2 == BuiltinOps \cup UPost
+OpsS3 == BuiltinOps \cup UPre \cup UPost
+OpsS4 == BuiltinOps \cup UIn
+OpsS5 == BuiltinOps \cup UPre \cup UIn
+OpsS6 == BuiltinOps \cup UPost \cup UIn
+OpsS7 == ExtendedOps
 \* one JSON record per complete behaviour (leg R)
 EmitOnce == (st \in {"done", "err"}) =>
    PrintT(ToJson([chars |-> inp, ok |-> (st = "done"), dc |-> dc,
